@@ -117,6 +117,55 @@ class C03(common.Prop):
             out['exc'] = rec.get('exc')
         return out
 
+    # ---- Python mirror of BondingCheck.prop_fail, used only when the Coq side cannot be built
+    # (e.g. the translator fails closed on a rewritten `compatible`): search, never proof
+    @staticmethod
+    def _compat(legacy, l, r):
+        if not l or not r:
+            return False
+        lk, lt, rk, rt = l[0], l[1:], r[0], r[1:]
+        compl = (lk, rk) in (('<', '>'), ('>', '<'))
+        if legacy:
+            return (lk == rk and lt == rt and lk not in '> <') or (compl and lt == rt)
+        return (lk == rk and rk in '$!') or compl
+
+    def python_oracle(self, case, impl):
+        if 'skip' in impl:
+            return 0
+        if 'bonds' not in impl:
+            return 9
+        legacy = case['legacy']
+        edges = {(a, b): o for a, b, o in impl['edges']}
+        s0 = {a: {n: list(ds) for n, ds in t} for a, t in impl['s0']}
+        s1 = {a: {n: list(ds) for n, ds in t} for a, t in impl['s1']}
+        arom = set(impl['arom'])
+        bonds = impl['bonds']
+        for a, b, u, v, d1, d2, o in bonds:
+            if (a, b) not in edges:
+                return 1
+            if sum(1 for x in bonds if (x[0], x[1]) == (a, b)) > edges[(a, b)]:
+                return 2
+            if not self._compat(legacy, d1, d2):
+                return 3
+            want = 1.5 if (u in arom and v in arom) else (int(d1[-1]) if d1[-1:].isdigit() else None)
+            if want is None or float(o) != float(want) or (want == 1.5) != isinstance(o, float):
+                return 4
+            used_src = sum(1 for x in bonds if (x[0], x[2], x[4]) == (a, u, d1)) + \
+                sum(1 for x in bonds if (x[1], x[3], x[5]) == (a, u, d1))
+            if used_src > s0.get(a, {}).get(u, []).count(d1):
+                return 5
+            used_tgt = sum(1 for x in bonds if (x[0], x[2], x[4]) == (b, v, d2)) + \
+                sum(1 for x in bonds if (x[1], x[3], x[5]) == (b, v, d2))
+            if used_tgt > s0.get(b, {}).get(v, []).count(d2):
+                return 5
+        for (a, b), o in edges.items():
+            if sum(1 for x in bonds if (x[0], x[1]) == (a, b)) < o:
+                left = any(self._compat(legacy, d, t) for ds in s1.get(a, {}).values() for d in ds
+                           for ts in s1.get(b, {}).values() for t in ts)
+                if left:
+                    return 6
+        return 0
+
     def nontrivial(self, case, impl):
         return 'skip' not in impl and len(impl.get('bonds', [])) >= 1
 
